@@ -45,6 +45,7 @@ type c12Sched struct {
 	finished chan struct{}
 	harness  string
 	onPoint  func()
+	onSwitch func() // called right before another thread is given the processor
 }
 
 func (s *c12Sched) decide(self *c12Thread, pid int, selfEnabled bool) {
@@ -91,6 +92,9 @@ func (s *c12Sched) decide(self *c12Thread, pid int, selfEnabled bool) {
 			k--
 		}
 	}
+	if s.onSwitch != nil {
+		s.onSwitch()
+	}
 	s.cur = next
 	s.threads[next].wake <- struct{}{}
 	if selfEnabled {
@@ -125,6 +129,8 @@ func c12Execute(si int, choices []int, snapshotEveryPoint bool) c12Exec {
 	for _, v := range sc.Shared {
 		shared = append(shared, v)
 	}
+	sharedArgs := append([]any{}, shared...)
+	beforeArgs := snap.Take(false, sharedArgs...)
 	shared = append(shared, c12Globals()...)
 	before := snap.Take(false, shared...)
 	var ex c12Exec
@@ -140,6 +146,16 @@ func c12Execute(si int, choices []int, snapshotEveryPoint bool) c12Exec {
 			if n%stride != 0 {
 				return
 			}
+			// at every yield point: the shared argument values; the package-level variables are compared whenever the
+			// processor changes hands (below) and at the end - a change to one of them that is undone before any other
+			// thread runs cannot be observed by anyone in this schedule
+			if snap.Take(false, sharedArgs...).Hash != beforeArgs.Hash {
+				ex.midChanges++
+			}
+		}
+	}
+	if snapshotEveryPoint {
+		s.onSwitch = func() {
 			if snap.Take(false, shared...).Hash != before.Hash {
 				ex.midChanges++
 			}
